@@ -285,7 +285,7 @@ TABLE = {
         ("C18_result_depends_on_reads_only", "Proofs_Threads.eval_op_reads"),
         ("C18_only_owner_changes_owned", "Proofs_Threads.owned_only_changed_by_owner"),
         ("C18_discipline_needed", "Proofs_Threads.thr_discipline_needed"),
-        ("C18_shared_inventory_safe", "Proofs_Sites.shared_inventory_safe"),
+        ("C18_shared_inventory_safe", "Proofs_Shared.shared_inventory_safe"),
     ]),
     "C04_R": ("analysis bridge for C04 at the real numbers", """
    The generic theorems use the FORMAL derivative (characterised algebraically).  At the real
@@ -458,8 +458,8 @@ def main():
         if only and pid not in only:
             continue
         types, out = coq_types([l for _, l in thms], implicit=(pid == 'C16' or pid.endswith('_R')),
-                               imports=IMPORTS + (" Proofs_Sites" if pid in ("C09", "C18") else ""))
-        imports = IMPORTS + (" Proofs_Sites" if pid in ("C09", "C18") else "")
+                               imports=IMPORTS + (" Proofs_Sites" if pid == "C09" else " Proofs_Shared" if pid == "C18" else ""))
+        imports = IMPORTS + (" Proofs_Sites" if pid == "C09" else " Proofs_Shared" if pid == "C18" else "")
         parts = [HEAD.format(pid=pid, title=f"{pid}: {title}.", blurb=blurb.strip("\n"), imports=imports)]
         for name, lemma in thms:
             if lemma not in types:
